@@ -15,36 +15,38 @@ theorem framing_roundtrip (t : TLV) (tail : Bytes) (hw : t.WF) :
   parseOne_ser _ t tail hw (Or.inl (by decide))
 
 /-- the BER codec tables extracted from the source are inside the region of the round-trip proof -/
-theorem ber_region (o : EncOpts) (hc : o.maxChunk = 0) (hi : o.ifNotEmpty = false) :
+theorem ber_region (o : EncOpts) (hi : o.ifNotEmpty = false) :
     Region Generated.berEnc Generated.berDecByType o :=
-  { seqOmit := rfl, setOrd := rfl, sortOf := rfl, chunk := hc, ine := hi,
+  { seqOmit := rfl, setOrd := rfl, sortOf := rfl, chunk := Or.inr ⟨rfl, by decide⟩, ine := hi,
     bool := by intro b hd tg; cases b <;> rfl }
 
-theorem ber_region_byTag (o : EncOpts) (hc : o.maxChunk = 0) (hi : o.ifNotEmpty = false) :
+theorem ber_region_byTag (o : EncOpts) (hi : o.ifNotEmpty = false) :
     Region Generated.berEnc Generated.berDecByTag o :=
-  { seqOmit := rfl, setOrd := rfl, sortOf := rfl, chunk := hc, ine := hi,
+  { seqOmit := rfl, setOrd := rfl, sortOf := rfl, chunk := Or.inr ⟨rfl, by decide⟩, ine := hi,
     bool := by intro b hd tg; cases b <;> rfl }
 
-/-- **BER round trip** (partial: `maxChunkSize = 0`; types without ANY and REAL; in indefinite mode
-    no explicit tag over BOOLEAN/INTEGER/ENUMERATED/NULL/OBJECT IDENTIFIER — finding E1).
+/-- **BER round trip, every encoder mode** (partial in the type universe only: types without ANY and
+    REAL; in indefinite mode no explicit tag over BOOLEAN/INTEGER/ENUMERATED/NULL/OBJECT IDENTIFIER —
+    that is finding E1, where the real encoder writes a stray end-of-octets).
     For every well-formed type of the region, every complete value of it, definite or indefinite
-    mode, any nesting depth, any tag numbers and lengths: whatever `encode` returns, followed by
-    any octets, `decode` against the same type gives back the value and exactly those octets. -/
-theorem ber_roundtrip_partial (defMode : Bool) (t : Ty) (v : Val) (b tail : Bytes)
+    mode, every `maxChunkSize`, any nesting depth, any tag classes and numbers, any lengths:
+    whatever `encode` returns, followed by any octets, `decode` against the same type gives back
+    the value and exactly those octets. -/
+theorem ber_roundtrip_partial (defMode : Bool) (maxChunk : Nat) (t : Ty) (v : Val) (b tail : Bytes)
     (hreg : t.reg Generated.berEnc defMode = true) (hwf : t.WF = true) (hty : HasType t v = true)
-    (h : encItem Generated.berEnc { defMode := defMode } t v = .ok b) :
+    (h : encItem Generated.berEnc { defMode := defMode, maxChunk := maxChunk } t v = .ok b) :
     decodeOne Generated.berDecByType t (b ++ tail) = .ok (v, tail) :=
-  roundtrip_item Generated.berEnc Generated.berDecByType { defMode := defMode }
-    (ber_region _ rfl rfl) rfl t v b tail hreg hwf hty h
+  roundtrip_item Generated.berEnc Generated.berDecByType { defMode := defMode, maxChunk := maxChunk }
+    (ber_region _ rfl) rfl t v b tail hreg hwf hty h
 
 /-- the hypotheses are met by a non-trivial case: a SEQUENCE with an explicitly tagged OCTET STRING,
-    an absent OPTIONAL and a SET OF INTEGER, in indefinite mode -/
+    an absent OPTIONAL and a SET OF INTEGER, in indefinite mode with one-octet chunks -/
 example :
     let t : Ty := .seq (.cons .req (.tagged true .context 0 (.prim (.str 4)))
       (.cons .opt (.prim .boolean) (.cons .req (.setOf (.prim .integer)) .nil)))
     let v : Val := .seq [.str [1, 2], .absent, .seqOf [.int 5, .int (-300)]]
     t.reg Generated.berEnc false = true ∧ t.WF = true ∧ HasType t v = true ∧
-      (encItem Generated.berEnc { defMode := false } t v).toOption.isSome = true := by
+      (encItem Generated.berEnc { defMode := false, maxChunk := 1 } t v).toOption.isSome = true := by
   decide +kernel
 
 end Asn1.C01
